@@ -147,7 +147,11 @@ pub fn finish(
         "samples",
         Json::Arr(acc.samples.iter().map(|(_, j)| j.clone()).collect()),
     );
+    // wall-clock measurements are kept apart so that `counters` is a pure function of the seed
+    let timing = acc.counters.subset_json("time_us.");
+    acc.counters.c.retain(|k, _| !k.starts_with("time_us."));
     coverage.set("counters", acc.counters.to_json());
+    coverage.set("timing_us", timing);
     coverage.set("fault_kinds_fired", acc.counters.subset_json("fault."));
     coverage.set("reach_probes", acc.counters.subset_json("probe."));
     coverage.set("digest", Json::str(format!("{:016x}", acc.digest)));
